@@ -73,7 +73,7 @@ def run(R):
     R.encode(f'{H.ETYPE_SCALA} EType.fromPythonTypeEncoding (case table, parsed)', json.dumps(tab, sort_keys=True, default=str))
     R.sample({'etype_table': {k: str(v) for k, v in tab.items()}})
     validate_stub(R)
-    pct = 120 if R.tier == 'quick' else 900
+    pct = 120 if R.tier == 'quick' else 400
     R.bounds = {'types': f'{len(cat)} types, depth <= 2', 'collections': 'length 0..2; one array type with 7..9 elements',
                 'ints': '32/64-bit ranges, symbolic', 'floats': 'symbolic 32/64-bit patterns (opaque)', 'strings': 'choice among 3 (ASCII, empty, multi-byte UTF-8)',
                 'calls': 'ploidy/phase symbolic, alleles chosen from {0,1,999}', 'ndarray': 'concrete numpy arrays chosen symbolically (C/F order, views, <= 3 dims)',
